@@ -107,7 +107,7 @@ impl Property for C11 {
         C11
     }
     fn rule(&self) -> String {
-        "builder configurations with a source date in the past, up to 5 distinct non-root users and groups, file mtimes on both sides of the source date, unsigned or signed with a deterministic key (RSA PKCS#1, Ed25519, ECDSA/RFC6979); each configuration is built 3 times sequentially and 3 times concurrently (threads) in this process and 3 times in freshly started child processes with different TZ, working directory, LANG/LC_ALL, HOME, USER, HOSTNAME, SOURCE_DATE_EPOCH (unset / 2100 / 0) and umask (hence also different hash seeds). Non-trivial = at least 2 distinct non-root owners or a signer; distinct by configuration hash.".into()
+        "builder configurations with a source date in the past, up to 5 distinct non-root users and groups, file mtimes on both sides of the source date (a second to 2^31 seconds and more after it, up to 2106), unsigned or signed with a deterministic key (RSA PKCS#1, Ed25519, ECDSA/RFC6979); each configuration is built 3 times sequentially and 3 times concurrently (threads) in this process and 3 times in freshly started child processes with different TZ, working directory, LANG/LC_ALL, HOME, USER, HOSTNAME, SOURCE_DATE_EPOCH (unset / 2100 / 0) and umask (hence also different hash seeds). Non-trivial = at least 2 distinct non-root owners or a signer; distinct by configuration hash.".into()
     }
     fn assumptions(&self) -> Vec<String> {
         vec![
@@ -137,7 +137,7 @@ impl Property for C11 {
             name: "rebuilds",
             cases: tier.pick(480, 60_000),
             strat: Arc::new(|| {
-                (config_any(CfgParams { max_files: 8, sizes: size_small(), comp: comp_fast(), sign_prob: 0.3, file_kinds: true, force_large_prob: 0.05, rich_meta: true }), 1_000_000_000u32..1_700_000_000, any::<u64>())
+                (config_any(CfgParams { max_files: 8, sizes: size_small(), comp: comp_fast(), sign_prob: 0.3, file_kinds: true, force_large_prob: 0.05, rich_meta: true }), prop_oneof![6 => 1_000_000_000u32..1_700_000_000, 1 => proptest::sample::select(vec![1u32, 1000, 86_400, 500_000_000, 999_999_999])], any::<u64>())
                     .prop_map(|(mut cfg, sd, salt)| {
                         cfg.source_date = Some(sd);
                         cfg.setters_last = salt % 2 == 1;
@@ -162,6 +162,11 @@ impl Property for C11 {
                         // mtimes on both sides of the source date
                         for (i, f) in cfg.files.iter_mut().enumerate() {
                             f.mtime = if (salt >> i) & 1 == 0 { sd.saturating_sub(1 + (salt % 100_000) as u32) } else { sd + 1 + (salt % 100_000) as u32 };
+                            // ... and, now and then, decades after it (2^31 s and more; up to 2106)
+                            if (salt >> (16 + 2 * i)) & 3 == 3 {
+                                let far = [sd as u64 + (1 << 31) - 1, sd as u64 + (1 << 31), sd as u64 + (1 << 31) + 1 + salt % 1000, sd as u64 + 3_000_000_000, u32::MAX as u64 - 1, u32::MAX as u64][(salt >> 40) as usize % 6];
+                                f.mtime = far.min(u32::MAX as u64) as u32;
+                            }
                         }
                         C11Case(cfg)
                     })
